@@ -39,3 +39,36 @@ Proof.
   intros k Hk. apply buckets_cluster. exact Hk.
 Qed.
 Print Assumptions C06_code_one_entry_per_point.
+
+(* ---- the RESULT ASSEMBLY of main_loop.fit_stacked_data AS TRANSLATED in skeleton mode (Gen/G_main_loop_suffix.v: everything
+   after the task pool is closed; every callee an oracle; facts: Proofs/GenEquivRS.v): a call that returns built the result
+   from the final state's own label_assignment_cost, and from ONE list of per-point values - by_cluster =
+   _compute_log_likelihood_by_cluster(data, FINAL state), chained in cluster order -: its np.sum is overall_log_likelihood,
+   its np.mean / np.median the overall mean / median, the per-cluster means / medians are taken over that same by_cluster, and
+   the chained list itself is all_log_likelihood.  No other call was made, so no other state, labelling or table can reach
+   any of these fields ---- *)
+From Ticc Require Import Gen.PySkel Gen.G_main_loop_suffix Proofs.GenEquivRS.
+Theorem C06_code_result_fields : forall (V : Type) (vint : Z -> V) (as_int : V -> option Z) (getattr : V -> string -> V)
+    (oracle : list (event V) -> string -> list V -> res V)
+    (state data npoints r : V) (log log' : list (event V)) (T : Z),
+  as_int (getattr (getattr data "shape"%string) "[0]"%string) = Some T ->
+  g_fit_stacked_data_result V vint as_int getattr oracle state data npoints log = (Ret r, log') ->
+  exists bic chi minus1 copies labelsT mrfs by_cluster chained all_ll total mean median cmean cmedian,
+    log' = (log ++ [Ev "cluster_metrics.bayesian_information_criterion"%string [state];
+                    Ev "cluster_metrics.calinski_harabasz_index"%string [data; state];
+                    Ev "expr:[-1]"%string []; Ev "op:*"%string [minus1; npoints]]
+                ++ copies
+                ++ [Ev f_mrfs [state];
+                    Ev "_compute_log_likelihood_by_cluster"%string [data; state];
+                    Ev "expr:itertools.chain(*cluster_log_likelihood)"%string [by_cluster];
+                    Ev "list"%string [chained];
+                    Ev "np.sum"%string [all_ll]; Ev "np.mean"%string [all_ll]; Ev "np.median"%string [all_ll];
+                    Ev f_cmean [by_cluster]; Ev f_cmedian [by_cluster];
+                    Ev f_result [bic; chi; getattr state "label_assignment_cost"%string; total; mean; median; cmean; cmedian;
+                                 all_ll; mrfs; getattr (getattr state "arguments"%string) "num_clusters"%string; labelsT;
+                                 getattr (getattr state "arguments"%string) "window_size"%string]])%list /\
+    length copies = (2 * Z.to_nat T)%nat /\
+    (forall i, (i < Z.to_nat T)%nat -> exists lb v, firstn 2 (skipn (2 * i) copies) = copy_events V vint getattr state lb i v) /\
+    oracle log "cluster_metrics.bayesian_information_criterion"%string [state] = Ret bic.
+Proof. exact result_assembly. Qed.
+Print Assumptions C06_code_result_fields.
